@@ -10,7 +10,7 @@ import datagen
 
 RULE = ('frames of 1..4 channels x 8 dtypes x byte order x layout {C, F, strided, read-only, view} x cast x source kind {inline, dict, '
         'structured, hdf5} x input chunk x window x indexed or not x successful / failing writes (missing dataset, unequal rows, bad '
-        'window). Snapshot = bytes of the root buffer of every caller array (incl. the parts outside a view), flags, dtype, shape, strides, '
+        'window) x non-finite float samples under an integer cast x follow-up (add_channel with data on the written specification, second write). Snapshot = bytes of the root buffer of every caller array (incl. the parts outside a view), flags, dtype, shape, strides, '
         'dict keys and value identities, SHA-256 of the HDF5 file. Distinct by (layouts, kind, chunk, window, failure kind).')
 ASSUMPTIONS = ['numpy copy-versus-view semantics are below the model; this check observes them on every case instead']
 PARTIAL = ('the Coq theorem C19_no_caller_write is about a hand-abstracted effect model; the code is tied to the property only by these '
@@ -43,6 +43,15 @@ def run(ctx):
                     c['layout'] = 'C'
         fail = rng.choice([None, None, None, 'missing', 'rows', 'window', 'cast3d'])
         arrays = {c['name']: datagen.physical_array(c) for c in chans}
+        special = k % 4 == 0
+        if special:
+            # non-finite samples under an integer cast (a "sanitising" in-place step would show up in the caller's array)
+            for c in chans:
+                if c['dtype'] in ('float32', 'float64') and arrays[c['name']].size and c['layout'] != 'read-only' and arrays[c['name']].flags.writeable:
+                    a = arrays[c['name']]
+                    flat_idx = rng.randrange(a.size)
+                    a[np.unravel_index(flat_idx, a.shape)] = rng.choice([np.nan, np.inf, -np.inf])
+                    c['cast'] = rng.choice(['int16', 'int32', 'uint8', 'uint16'])
         if fail == 'rows' and nch > 1 and kind in ('inline', 'dict'):
             a = arrays[chans[-1]['name']]
             arrays[chans[-1]['name']] = np.concatenate([a, a])
@@ -107,6 +116,29 @@ def run(ctx):
             gc.collect()
             if hashlib.sha256(open(h5, 'rb').read()).hexdigest() != h5_before:
                 ctx.violation('hdf5-file-changed', det)
+        # the caller's objects stay the caller's AFTER the write as well: later API calls on the same specification and a second write
+        if k % 3 == 0:
+            late = np.arange(rows, dtype=np.float64)
+            late_before = late.tobytes()
+            o3 = impl.outcome(lambda: lf.add_channel('LATE-CHANNEL', data=late))
+            o4 = impl.outcome(lambda: impl.write_real(df, in_chunk=None, data=data, **kw))
+            ctx.stat('K-alias', 'followup_' + ('ok' if o4[0] == 'ok' else 'raised'))
+            det2 = {**det, 'after': 'add_channel(data=...) and a second write'}
+            for nm, a in arrays.items():
+                if snap_array(a) != before[nm]:
+                    ctx.violation('caller-array-changed', {**det2, 'array': nm})
+            if late.tobytes() != late_before:
+                ctx.violation('caller-array-changed', {**det2, 'array': 'LATE-CHANNEL'})
+            if dict_before is not None and [(k2, id(v)) for k2, v in data.items()] != dict_before:
+                ctx.violation('caller-dict-changed', {**det2, 'keys_before': [x[0] for x in dict_before], 'keys_after': list(data)})
+            if struct_before is not None and snap_array(data) != struct_before:
+                ctx.violation('caller-structured-array-changed', det2)
+            if h5:
+                import gc
+                gc.collect()
+                if hashlib.sha256(open(h5, 'rb').read()).hexdigest() != h5_before:
+                    ctx.violation('hdf5-file-changed', det2)
+        if h5:
             os.remove(h5)
         if k % 17 == 0:
             ctx.sample({'stream': 'K-alias', **{kk: det[kk] for kk in ('kind', 'failure_injected', 'options', 'write')},
